@@ -471,6 +471,22 @@ impl World for Refs {
         out
     }
 
+    fn check_state(&mut self) -> Vec<(String, String)> {
+        if !self.cfg.props.contains("C13") || self.tainted {
+            return Vec::new();
+        }
+        let uuids: Vec<Uuid> = (0..NSLOTS).map(slot_uuid).collect();
+        let orig = self.srv.read(|r| crate::bkp::observe_original(r, &uuids, &NAME));
+        let out = match orig {
+            Ok(o) => crate::bkp::round_trip_check(&self.srv.rt, &o, srv::t(self.now), &uuids, &NAME),
+            Err(e) => vec![("backup_failed".to_string(), e)],
+        };
+        if !out.is_empty() {
+            self.tainted = true;
+        }
+        out
+    }
+
     fn canon(&mut self) -> u64 {
         let mut h = Fnv::new();
         h.write_str(&self.canon_string());
